@@ -81,8 +81,10 @@ def timestamp_to_sf_struct(ts: pa.Array | pa.ChunkedArray) -> pa.Array:
     tsa_without_us = pc.floor_temporal(ts, unit="second")  # type: ignore https://github.com/zen-xu/pyarrow-stubs/issues/45
     epoch = pc.divide(tsa_without_us.cast(pa.int64()), 1_000_000)  # type: ignore https://github.com/zen-xu/pyarrow-stubs/issues/44
 
-    # Calculate fractional part as nanoseconds
-    fraction = pc.multiply(pc.subsecond(ts), 1_000_000_000).cast(pa.int32())  # type: ignore
+    # Calculate fractional part as nanoseconds, in integer arithmetic: the floating point product
+    # subsecond * 1e9 is not an integer for every microsecond (eg: 0.000065 * 1e9 = 65000.00000000001)
+    subsecond_us = pc.subtract(ts.cast(pa.int64()), tsa_without_us.cast(pa.int64()))  # type: ignore
+    fraction = pc.multiply(subsecond_us, 1_000).cast(pa.int32())  # type: ignore
 
     if ts.type.tz:
         assert ts.type.tz == "UTC", f"Timezone {ts.type.tz} not yet supported"
